@@ -251,11 +251,13 @@ CHECKS = {
          "comes from the specification: Machine.tla computes the reachable set (Live) at the end of every scenario program and of every program TLC "
          "generates from Gen.tla (loops, per-iteration variables, closures, containers, fibers), and the objects surviving a forced collection are "
          "compared with it kind by kind on both builds (garbage kept through a stale internal pointer shows as a surplus). The pacing arithmetic "
-         "itself is also discharged over unbounded integers: spec/apalache/Pacing.tla has an inductive invariant implying Pacing, checked by Apalache.",
+         "itself is also discharged over unbounded integers (any budget, any growth factor >= 1, any sizes, any length): spec/Pacing.tla has an inductive invariant "
+         "implying Pacing, checked by Apalache and proved as THEOREM Spec => []Pacing by TLAPS (PacingProof.tla, 51 obligations); Heap.tla and TraceHeap.tla step-refine "
+         "Pacing.tla (PROPERTY RefinesPacing under TLC), so every explored state and every recorded allocation of the real heap is a step of the proved rule.",
     note="The loop catalogue for n-vs-2n is fixed (24 shapes); the reachable-set comparison runs on scenario products and TLC-generated programs. "
          "A call chain of fibers that died with an uncaught error is kept alive by the implementation for as long as a closure holds a variable "
          "of one of them; the specification models that as built (DESIGN.md 9.3).",
-    technique="TLA+ spec + TLC exhaustive + history replay + trace validation of recorded allocation events; reachable set of the reference machine vs surviving objects; Apalache inductive invariant",
+    technique="TLA+ spec + TLC exhaustive + history replay + trace validation of recorded allocation events; reachable set of the reference machine vs surviving objects; Apalache inductive invariant + TLAPS proof of the pacing rule, refined by the TLC-checked specs",
     design="4 C16"),
  "C11": dict(
     level="model_checking",
@@ -291,7 +293,8 @@ m = {
  "engines": [
    {"name": "tlc", "path": "/opt/veriftools/tla/tla2tools.jar", "serves_properties": sorted(CHECKS), "kind_free_text": "TLA+ explicit-state model checker (exhaustive, simulation, trace validation)"},
    {"name": "vh", "path": "/verif/harness", "serves_properties": sorted(CHECKS), "kind_free_text": "Rust conformance harness linked against /repo/yarel with --cfg yarel_verif"},
-   {"name": "apalache", "path": "/opt/veriftools/apalache", "serves_properties": ["C16"], "kind_free_text": "symbolic TLA+ model checker: inductive invariant of spec/apalache/Pacing.tla over unbounded integers (supplementary; TLC + replay decide the property)"}],
+   {"name": "apalache", "path": "/opt/veriftools/apalache", "serves_properties": ["C16"], "kind_free_text": "symbolic TLA+ model checker: inductive invariant of spec/Pacing.tla over unbounded integers (supplementary; TLC + replay decide the property)"},
+   {"name": "tlapm", "path": "/opt/veriftools/tlapm", "serves_properties": ["C16"], "kind_free_text": "TLA+ proof system: spec/PacingProof.tla, THEOREM Spec => []Pacing (supplementary)"}],
  "checks": [],
  "not_applicable": [],
  "notes": "Model-based verification with explicit TLA+ specifications (spec/), bound to the code by replay and trace validation; see DESIGN.md.",
